@@ -511,7 +511,7 @@ class ConcVC(BaseVC):
 
     def install(self, spec, f):
         """native counterpart of a contract stub: the collaborator is patched into the real modules/classes for the duration of this run,
-        so the same harness text drives the real compiled code (undone by close())"""
+        so the same harness text drives the real compiled code (undone after the run)"""
         import sys
         mod, qual = spec.split(":")
         m = importlib.import_module(mod)
@@ -548,7 +548,7 @@ class ConcVC(BaseVC):
         undo.append((obj, name, obj.__dict__.get(name, self._MISSING)))
         setattr(obj, name, val)
 
-    def close(self):
+    def _uninstall(self):
         for obj, name, old in reversed(self.__dict__.get("_undo", [])):
             if old is self._MISSING:
                 try:
@@ -1052,7 +1052,7 @@ def run_concrete(h, values=None, seed=0, n=1):
             errors.append((repr(e), dict(vc.inputs)))
             continue
         finally:
-            vc.close()
+            vc._uninstall()
         for name in vc.failed:
             fails.append((name, dict(vc.inputs)))
     return ran, fails, errors
